@@ -246,6 +246,14 @@ func buildBattery() *battery {
 		{IDs: []string{id("r1"), id("q1")}, Authors: []string{Q}},
 		{Kinds: []int64{1}, Tags: tags("t", "x")},
 		{Kinds: []int64{30000, 20001}, Authors: []string{P, Q}},
+		// tags of the focus events: a value only one event carries, the repeated p value, the second d value
+		{Tags: tags("t", "z")},
+		{Tags: tags("t", "w")},
+		{Tags: tags("t", "z", "w", "x")},
+		{Tags: tags("p", pTarget)},
+		{Tags: tags("d", "y")},
+		{Tags: tags("d", "x", "y")},
+		{Kinds: []int64{1}, Tags: tags("t", "z")},
 	}
 	for _, f := range bases {
 		b.addQuery(b.addFilter(cloneFilter(f)))
